@@ -13,7 +13,19 @@ from ..schedlib import model_request, run_impl
 
 MODULES = sc.MODULES + ["Props.C02", "Props.C03Run", "Props.C05Run", "Props.C04Run", "Connect", "ConnectLemmas"]
 GEN_OBLIGATIONS = sc.GEN_OBLIGATIONS
-THEOREM_DEPS = ["C04Run"]
+THEOREM_DEPS = ["C04Run", "C04RunP"]
+MODULES = MODULES + ["Props.C04RunP"]
+SIG_REENTRY = "pull-reentry-circular"
+
+
+def pull_with_outside_reader(spec):
+    """a pull-based component that is read by more than one component (e.g. by a member of a ring it lies on and by
+    a component outside that ring)"""
+    readers = {}
+    for l in spec["links"]:
+        if spec["comps"][l["src"]]["kind"] == "pull":
+            readers.setdefault(l["src"], set()).add(l["dst"])
+    return any(len(r) > 1 for r in readers.values())
 
 
 def oracle(spec, impl):
@@ -26,8 +38,10 @@ def oracle(spec, impl):
     if impl["error"] is not None and c01.oracle(spec, impl) and c01.oracle(spec, impl)[2]:
         return None  # a recorded finding of C01 (classified there)
     if impl["error"] is not None:
+        # recorded finding: the walk re-enters a pull-based component that is still on the chain for another reader
+        sig = SIG_REENTRY if (impl["error"] == "FinamCircularCouplingError" and pull_with_outside_reader(spec)) else None
         return ("a cycle whose delay adapters cover the sum of the largest steps runs to completion",
-                {"error": impl["error"], "msg": impl.get("msg"), "phase": impl["phase"], "mode": ring.get("mode")}, None)
+                {"error": impl["error"], "msg": impl.get("msg"), "phase": impl["phase"], "mode": ring.get("mode")}, sig)
     f = c02.oracle(spec, impl)
     if f:
         return f
@@ -43,6 +57,8 @@ def gen(ctx):
         return s
     if ctx.rng.random() < 0.08:
         return sc.gen_pull_ring(ctx.rng)
+    if ctx.rng.random() < 0.06:
+        return sc.gen_ring_pull_tail(ctx.rng)
     return sc.gen_ring(ctx.rng, resolved=ctx.rng.random() < 0.6)
 
 
@@ -104,6 +120,20 @@ def search(ctx, res, divergences, broken):
 
 def shrink(ctx, f):
     return f
+
+
+REENTRY_CASE = {"comps": [{"kind": "time", "start": 0, "steps": [2]}, {"kind": "pull", "nout": 1}, {"kind": "time", "start": 0, "steps": [5]}],
+                "links": [{"src": 0, "out": 0, "dst": 1, "ads": []}, {"src": 1, "out": 0, "dst": 0, "ads": [["dfix", 3]]},
+                          {"src": 1, "out": 0, "dst": 2, "ads": []}],
+                "order": [0, 1, 2], "end": 12, "ring": {"resolved": True, "mode": "pull-tail"}}
+
+
+def _known_reentry(ctx):
+    o = oracle(REENTRY_CASE, run_impl(REENTRY_CASE))
+    return bool(o) and o[2] == SIG_REENTRY
+
+
+KNOWN_REPRO = {SIG_REENTRY: _known_reentry}
 
 
 def replay(ctx, rp):
